@@ -152,7 +152,8 @@ def run_check(prop, tier):
             known_hit.append(o)
         else:
             viol.append(o)
-    vdir = os.path.join(VERIF, "evidence", "violations")
+    evdir = os.environ.get("VP_EVIDENCE_DIR") or os.path.join(VERIF, "evidence")
+    vdir = os.path.join(evdir, "violations")
     os.makedirs(vdir, exist_ok=True)
     for f in os.listdir(vdir):
         if f.startswith(prop + "-"):
@@ -176,6 +177,16 @@ def run_check(prop, tier):
                        "what": o["what"], "where": o["where"], "detail": o["detail"], "tree": th}, fh, indent=1)
         print("  violated: [%s] %s %s" % (o["key"], o["what"], ("at " + o["where"]) if o["where"] else ""))
         print("VIOLATION property=%s replay=%s" % (prop, path))
+    # ---- thorough tier: validate the checker itself on scratch copies (never on /repo)
+    selftest = []
+    st_fail = []
+    if tier == "thorough" and not os.environ.get("VP_NO_SELFTEST"):
+        from . import selftest as _st
+        selftest = _st.run(prop)
+        for r in selftest:
+            print("  selftest %-16s %-55s %s  (%s)" % (r["kind"], r["name"], {True: "ok", False: "FAIL", None: "skipped"}[r["ok"]], r["detail"][:160]))
+            if r["ok"] is False:
+                st_fail.append(r)
     wall = time.time() - t0
     # evidence
     oks = [o for o in ctx.obs if o["ok"]]
@@ -210,15 +221,21 @@ def run_check(prop, tier):
             "checker_cmd": "./check %s %s" % (prop, tier),
             "exhaustive": False,
             "extraction_seconds": round(ext_s, 2),
+            "selftest": selftest,
+            "selftest_must_fire_detected": sum(1 for r in selftest if r["kind"] == "must-fire" and r["ok"]),
+            "selftest_must_stay_silent_ok": sum(1 for r in selftest if r["kind"] == "must-stay-silent" and r["ok"]),
         },
         "assumptions": spec["assumptions"],
         "wall_s": round(wall, 2),
         "violations": len(viol),
     }
-    os.makedirs(os.path.join(VERIF, "evidence"), exist_ok=True)
-    with open(os.path.join(VERIF, "evidence", prop + ".json"), "w") as fh:
+    os.makedirs(evdir, exist_ok=True)
+    with open(os.path.join(evdir, prop + ".json"), "w") as fh:
         json.dump(ev, fh, indent=1)
     if viol:
         return 1
+    if st_fail:
+        print("SELFTEST-FAIL property=%s: the checker itself is broken (%d self-test(s) failed); no verdict" % (prop, len(st_fail)))
+        return 2
     print("OK property=%s obligations=%d discharged=%d known_findings=%d wall=%.1fs" % (prop, len(ctx.obs), len(oks), len(seen_known), wall))
     return 0
